@@ -87,21 +87,36 @@ pub fn roundtrip_io(spec: &FileSpec, short_io: bool) -> Result<usize, (String, S
             }
         }
     }
-    // the convenience constructors carry the defaults themselves
+    // the convenience constructors: Writer::memory(), Writer::new(..), Writer::builder() and
+    // WriterBuilder::new() with no setter called are all "the default configuration" (whatever the
+    // defaults are: no statement names them) — they must agree with each other and round-trip
     if spec.cfg == vlib::fam::FileCfg::plain() {
-        let alt = crate::common::guarded(|| -> Result<(Vec<u8>, Vec<u8>), String> {
+        let alt = crate::common::guarded(|| -> Result<Vec<Vec<u8>>, String> {
             let mut a = grenad::Writer::memory();
             let mut b = grenad::Writer::new(Vec::new());
+            let mut c = grenad::Writer::builder().build(Vec::new());
+            let mut d = grenad::WriterBuilder::new().memory();
             for (k, v) in &entries {
                 a.insert(k, v).map_err(|e| e.to_string())?;
                 b.insert(k, v).map_err(|e| e.to_string())?;
+                c.insert(k, v).map_err(|e| e.to_string())?;
+                d.insert(k, v).map_err(|e| e.to_string())?;
             }
-            Ok((a.into_inner().map_err(|e| e.to_string())?, b.into_inner().map_err(|e| e.to_string())?))
+            let e = |e: std::io::Error| e.to_string();
+            Ok(vec![a.into_inner().map_err(e)?, b.into_inner().map_err(e)?, c.into_inner().map_err(e)?, d.into_inner().map_err(e)?])
         })
         .map_err(|p| ("write".to_string(), format!("Writer::memory()/Writer::new(): {p}")))?
         .map_err(|e| ("write".to_string(), format!("Writer::memory()/Writer::new(): {e}")))?;
-        if alt.0 != bytes || alt.1 != bytes {
-            return Err(("write".into(), "Writer::memory() / Writer::new(Vec) produce different bytes than the builder left at its defaults".into()));
+        if alt.iter().any(|x| *x != alt[0]) {
+            return Err(("write".into(), "Writer::memory(), Writer::new(Vec), Writer::builder().build(Vec) and WriterBuilder::new().memory() do not produce the same bytes for the same inserts".into()));
+        }
+        let r = open(&alt[0]).map_err(|e| ("open".to_string(), format!("file of Writer::memory(): {e}")))?;
+        if r.len() != entries.len() as u64 {
+            return Err(("len".into(), format!("file of Writer::memory(): len() = {} after {} inserts", r.len(), entries.len())));
+        }
+        let m = Model::new(entries.clone());
+        for q in scan_queries().into_iter().filter(|q| matches!(q, Query::Scan { mode: CursorMode::Fresh, .. })) {
+            check_query(&alt[0], &m, &q).map_err(|e| ("scan".to_string(), format!("file of Writer::memory(): {e}")))?;
         }
     }
     let model = Model::new(entries);
